@@ -2,7 +2,7 @@
    This file contains the property theorems and nothing else; each is closed by `exact` of a lemma
    proved in Proofs/, and its axioms are printed beneath it. *)
 From Coq Require Import List NArith ZArith.
-From FFSM2 Require Import Model.Bits Model.BitStream Proofs.BitsProofs Proofs.BitStreamProofs Model.Cxx Generated.LeafCode Proofs.LeafTactics Proofs.LeafConsts Proofs.LeafCodeProofs Proofs.LeafCodeWide Proofs.LeafCodeArrays Proofs.LeafCodeBuffer.
+From FFSM2 Require Import Model.Bits Model.BitStream Proofs.BitsProofs Proofs.BitStreamProofs Model.Cxx Generated.LeafCode Proofs.LeafTactics Proofs.LeafLoops Proofs.LeafCodeBits Proofs.LeafCodeStream Proofs.LeafCodeWide Proofs.LeafCodeBuffer.
 Import ListNotations.
 Local Open Scope N_scope.
 
